@@ -10,32 +10,32 @@ Open Scope N_scope.
 Lemma keep_content_spec c :
   keep_content c =
     is_file (wt_kind c) && (backups c || is_none (target_kind c)) && negb (mm_match c)
-    && (if in_basis c then negb (sha_eq_basis c) else is_none (target_kind c) && negb (target_versioned c)).
+    && (negb (in_basis c) || negb (sha_eq_basis c)).
 Proof. destruct c as [[[]|] [[]|] [] [] [] [] []]; reflexivity. Qed.
 
-(* the guard the proof forces: the file is in the basis, or the target tree has nothing there *)
-Definition chg_guard (c : chg) : bool :=
-  in_basis c || (is_none (target_kind c) && negb (target_versioned c)).
+(* ... i.e. exactly: user-edited, and (backups requested or nothing to put in its place) *)
+Lemma keep_content_iff c :
+  keep_content c = (backups c || is_none (target_kind c)) && user_edited_chg c.
+Proof. destruct c as [[[]|] [[]|] [] [] [] [] []]; reflexivity. Qed.
 
 Lemma decision_keeps c :
-  backups c = true -> user_edited_chg c = true -> chg_guard c = true ->
+  backups c = true -> user_edited_chg c = true ->
   alter_action c = ABackup \/ alter_action c = AKeepInPlace.
 Proof. destruct c as [[[]|] [[]|] [] [] [] [] []]; cbv; intros; try discriminate; auto. Qed.
 
 (* whatever [backups] says: nothing in the target tree -> user-edited content stays where it is *)
 Lemma decision_target_none c :
-  user_edited_chg c = true -> target_kind c = None -> target_versioned c = false ->
-  alter_action c = AKeepInPlace.
+  user_edited_chg c = true -> target_kind c = None -> alter_action c = AKeepInPlace.
 Proof. destruct c as [[[]|] [[]|] [] [] [] [] []]; cbv; intros; try discriminate; auto. Qed.
 
 (* only user-edited file content is ever kept / backed up *)
 Lemma decision_exact c : keep_content c = true -> user_edited_chg c = true.
 Proof. destruct c as [[[]|] [[]|] [] [] [] [] []]; cbv; intros; try discriminate; auto. Qed.
 
-(* without the guard: an edited file that the basis lacks and the target tree has is deleted, backups on *)
-Lemma decision_refuted :
+(* the decision before cd17d15: an edited file that the basis lacks and the target tree has was not kept *)
+Lemma decision_old_refuted :
   exists c, backups c = true /\ user_edited_chg c = true /\ target_versioned c = is_some (target_kind c)
-            /\ alter_action c = ADelete.
+            /\ keep_content_old c = false /\ keep_content c = true.
 Proof.
   exists {| wt_kind := Some KFile; target_kind := Some KFile; backups := true; mm_match := false;
             in_basis := false; target_versioned := true; sha_eq_basis := false |}.
@@ -152,18 +152,6 @@ Proof.
   rewrite rev_app_distr. reflexivity.
 Qed.
 
-Lemma backup_name_no_pct n k : memb 37 n = false -> memb 37 (backup_name n k) = false.
-Proof.
-  intros H. unfold backup_name. rewrite !memb_app, H, (print_dec_no 37 k) by reflexivity. reflexivity.
-Qed.
-
-Lemma unescape_plain s : memb 37 s = false -> unescape s = s.
-Proof.
-  unfold unescape, memb. induction s as [|c t IH]; [reflexivity|].
-  cbn [existsb unescape_aux]. intros H. apply orb_false_iff in H as [H1 H2].
-  rewrite (N.eqb_sym c 37), H1. f_equal. auto.
-Qed.
-
 Lemma avail_gen_form norm n : forall fuel used k,
   exists j, k <= j /\ avail_gen norm n used k fuel = backup_name n j.
 Proof.
@@ -234,29 +222,23 @@ Proof.
     destruct (IH (avail (np_name q) used :: used) p nd Hin Ha Hl) as [u' H]. exists u'. right. exact H.
 Qed.
 
-Definition name_guard (s : state) (target : fmap) (n : bytes) : bool :=
-  is_some (lookup n (basis s)) || is_none (lookup n target).
-
 Lemma mk_chg_user_edited s target bk n c :
   user_edited s n c -> memn n (inv s) = true ->
   let g := mk_chg s target bk n in
-  user_edited_chg g = true /\ chg_guard g = name_guard s target n /\ backups g = bk
-  /\ (lookup n target = None -> target_kind g = None /\ target_versioned g = false).
+  user_edited_chg g = true /\ backups g = bk /\ (lookup n target = None -> target_kind g = None).
 Proof.
   intros [Hd [Hm Hb]] Hv. unfold mk_chg, wt_node. rewrite Hv, Hd, Hm. cbn.
-  unfold user_edited_chg, chg_guard, name_guard. cbn.
+  unfold user_edited_chg. cbn.
   repeat split.
   - destruct (lookup n (basis s)) as [[b| |]|] eqn:B; cbn; try reflexivity.
     destruct (bytes_eqb c b) eqn:E; [|reflexivity]. apply tbeq_eq in E. subst. congruence.
-  - destruct (lookup n target); reflexivity.
-  - rewrite H. reflexivity.
-  - rewrite H. reflexivity.
+  - intros H. rewrite H. reflexivity.
 Qed.
 
-(* the core: user-edited file content survives a revert whenever the decision cannot be "delete" *)
+(* the core: user-edited file content survives a revert whenever backups are on or the target has no entry *)
 Lemma revert_keeps target sel bk s s' n c :
   revert target sel bk s = Some s' -> user_edited s n c ->
-  (bk = true /\ name_guard s target n = true) \/ lookup n target = None ->
+  bk = true \/ lookup n target = None ->
   exists n', In (n', NFile c) (disk s')
              /\ (n' = n \/ n' = n ++ MOVED \/ exists k, n' = backup_name n k).
 Proof.
@@ -270,12 +252,12 @@ Proof.
     destruct (changed_content _ _); injection Hpl as Hpl; subst p; cbn in Hga, Hnm;
       [|discriminate].
     destruct (memn n (inv s)) eqn:V.
-    + destruct (mk_chg_user_edited s target bk n c Hu V) as [H1 [H2 [H3 H4]]].
+    + destruct (mk_chg_user_edited s target bk n c Hu V) as [H1 [H3 H4]].
       assert (Hact : alter_action (mk_chg s target bk n) = ABackup).
-      { destruct Hg as [[-> Hg]|Hg].
-        - destruct (decision_keeps _ H3 H1) as [A|A]; [rewrite H2; exact Hg|exact A|].
+      { destruct Hg as [->|Hg].
+        - destruct (decision_keeps _ H3 H1) as [A|A]; [exact A|].
           unfold goes_away in Hga. cbn in Hga. rewrite A in Hga. discriminate.
-        - destruct (H4 Hg) as [K1 K2]. rewrite (decision_target_none _ H1 K1 K2) in Hga. discriminate. }
+        - rewrite (decision_target_none _ H1 (H4 Hg)) in Hga. discriminate. }
       destruct (backups_of_In (disk s) ps (names (disk s)) _ (NFile c) Hp Hact Hd) as [u' Hin].
       cbn [np_name] in Hin. destruct (avail_form n u') as [k Hk].
       exists (avail n u'). split.
@@ -308,14 +290,15 @@ Definition s_added : state :=
      disk := [(nA, NFile (b_ "USER EDIT")); (nB, NFile [103; 10])]; mm := [] |}.
 Definition t_added : fmap := [(nA, NFile (b_ "one")); (nB, NFile [103; 10])].
 
-Lemma revert_added_refuted :
+(* the witness of the repaired finding C12-revert-added-file-no-backup: the edit now goes to a.~1~ *)
+Example revert_added_ex :
   exists s', revert t_added (Some [nA]) true s_added = Some s'
              /\ user_edited s_added nA (b_ "USER EDIT")
-             /\ forall n', ~ In (n', NFile (b_ "USER EDIT")) (disk s').
+             /\ In (backup_name nA 1, NFile (b_ "USER EDIT")) (disk s').
 Proof.
   eexists. split; [vm_compute; reflexivity|]. split.
   - repeat split; vm_compute; congruence.
-  - intros n' H. cbn in H. repeat (destruct H as [H|H]; [discriminate|]). exact H.
+  - vm_compute. tauto.
 Qed.
 
 Definition s_link : state :=
@@ -335,27 +318,20 @@ Definition s_ex : state :=
      mm := [] |}.
 Example revert_ex :
   exists s', revert (basis s_ex) None true s_ex = Some s'
-    /\ user_edited s_ex nA (b_ "EDIT") /\ name_guard s_ex (basis s_ex) nA = true
+    /\ user_edited s_ex nA (b_ "EDIT")
     /\ In (backup_name nA 2, NFile (b_ "EDIT")) (disk s') /\ In (nB, NFile (b_ "new")) (disk s').
 Proof.
   eexists. split; [vm_compute; reflexivity|]. split; [repeat split; vm_compute; congruence|].
-  split; [reflexivity|]. split; vm_compute; tauto.
+  split; vm_compute; tauto.
 Qed.
 
 (* ================================================================== Part 3: remove *)
 
-(* the guard: no '%' in a named path (the probe unescapes it), and no named path that ends in '~' is one
-   the loop would delete (stands for "the loop runs in reverse sorted order") *)
+(* the guard: a named path that ends in '~' is one the loop backs up rather than deletes.  It stands for "the
+   loop runs in reverse sorted order" (a backup name n.~k~ sorts after n, so it has been handled before n is
+   renamed onto it); the model takes the loop order as given and does not sort. *)
 Definition rm_guard (s : state) (files : list bytes) : bool :=
-  forallb (fun m => negb (memb 37 m) && (negb (ends_tilde m) || to_backup s m)) files.
-
-Section RemoveInv.
-Variables (s0 : state) (n : bytes) (nd : node).
-Hypothesis Hprot : to_backup s0 n = true.
-
-Definition rinv (a : state) : Prop :=
-  NoDup (names (disk a))
-  /\ exists n', prefixb n n' = true /\ In (n', nd) (disk a) /\ (n' = n \/ ends_tilde n' = true).
+  forallb (fun m => negb (ends_tilde m) || to_backup s m) files.
 
 Lemma In_remove_key {A} m (d : list (bytes * A)) k v : k <> m -> In (k, v) d -> In (k, v) (remove_key m d).
 Proof.
@@ -369,35 +345,40 @@ Proof.
   apply filter_In in H as [_ H]. cbn in H. rewrite tbeq_refl in H. discriminate.
 Qed.
 
-Lemma disk_set_disk a d : disk (set_disk a d) = d.
-Proof. reflexivity. Qed.
-
 Lemma names_app {A} (a b : list (bytes * A)) : names (a ++ b) = names a ++ names b.
 Proof. unfold names. apply map_app. Qed.
 
+Lemma disk_set_disk a d : disk (set_disk a d) = d.
+Proof. reflexivity. Qed.
+
+Section RemoveInv.
+Variables (s0 : state) (n : bytes) (nd : node).
+Hypothesis Hprot : to_backup s0 n = true.
+
+Definition rinv (a : state) : Prop :=
+  NoDup (names (disk a))
+  /\ exists n', prefixb n n' = true /\ In (n', nd) (disk a) /\ (n' = n \/ ends_tilde n' = true).
+
 Lemma remove_one_inv a m :
-  negb (memb 37 m) && (negb (ends_tilde m) || to_backup s0 m) = true ->
-  rinv a -> rinv (fst (remove_one false false s0 (a, false) m)).
+  negb (ends_tilde m) || to_backup s0 m = true ->
+  rinv a -> rinv (remove_one false false s0 a m).
 Proof.
-  intros Hg [Hnd [n' [Hpre [Hin Hform]]]]. apply andb_true_iff in Hg as [Hpct Htl].
-  apply negb_true_iff in Hpct.
+  intros Htl [Hnd [n' [Hpre [Hin Hform]]]].
   unfold remove_one. cbn [negb].
   destruct (lookup m (disk a)) as [ndm|] eqn:L; [|split; eauto].
   assert (Hsame : n' = m -> ndm = nd).
   { intros ->. rewrite (NoDup_lookup_In _ _ _ Hnd Hin) in L. congruence. }
   set (need := match ndm with NDir (_ :: _) => true | _ => true && to_backup s0 m end).
   destruct need eqn:N.
-  - unfold avail_rm. destruct (nonascii m); [split; eauto|]. cbn [fst]. unfold rinv. rewrite !disk_set_disk.
-    set (b := avail_gen unescape m (names (disk a)) 1 (List.length (names (disk a)))).
-    assert (Hfresh : ~ In b (names (disk a))).
-    { apply avail_gen_fresh; [|lia]. intros j. apply unescape_plain. apply backup_name_no_pct. exact Hpct. }
-    destruct (avail_gen_form unescape m (List.length (names (disk a))) (names (disk a)) 1) as [j [_ Hb]].
-    fold b in Hb.
+  - unfold rinv. rewrite !disk_set_disk.
+    set (b := avail m (names (disk a))).
+    pose proof (avail_fresh m (names (disk a))) as Hfresh. fold b in Hfresh.
+    destruct (avail_form m (names (disk a))) as [j Hb]. fold b in Hb.
     split.
     + rewrite names_app. cbn. apply NoDup_snoc.
       * apply NoDup_names_filter. apply NoDup_names_filter. exact Hnd.
       * apply not_In_remove_key.
-    + destruct (tbeq_eq n' m) as [_ _]. destruct (bytes_eqb n' m) eqn:E.
+    + destruct (bytes_eqb n' m) eqn:E.
       * apply tbeq_eq in E. rewrite (Hsame E). exists b. split; [|split].
         -- rewrite Hb. subst n'. apply prefixb_app. exact Hpre.
         -- apply in_or_app. right. left. reflexivity.
@@ -406,7 +387,7 @@ Proof.
         apply in_or_app. left. apply In_remove_key.
         -- intros ->. apply Hfresh. unfold names. apply in_map_iff. exists (b, nd). auto.
         -- apply In_remove_key; assumption.
-  - cbn [fst]. unfold rinv. rewrite !disk_set_disk. split; [apply NoDup_names_filter; exact Hnd|].
+  - unfold rinv. rewrite !disk_set_disk. split; [apply NoDup_names_filter; exact Hnd|].
     destruct (bytes_eqb n' m) eqn:E.
     + exfalso. apply tbeq_eq in E. pose proof (Hsame E) as ->. subst n'. unfold need in N.
       assert (Hb : to_backup s0 m = false).
@@ -417,19 +398,16 @@ Proof.
 Qed.
 End RemoveInv.
 
-Lemma remove_fold_inv s0 n nd keep : forall files a err,
+Lemma remove_fold_inv s0 n nd keep : forall files a,
   to_backup s0 n = true ->
-  forallb (fun m => negb (memb 37 m) && (negb (ends_tilde m) || to_backup s0 m)) files = true ->
-  rinv n nd a -> rinv n nd (fst (fold_left (remove_one keep false s0) files (a, err))).
+  forallb (fun m => negb (ends_tilde m) || to_backup s0 m) files = true ->
+  rinv n nd a -> rinv n nd (fold_left (remove_one keep false s0) files a).
 Proof.
-  induction files as [|m files IH]; intros a err Hp Hg Hi; [exact Hi|].
+  induction files as [|m files IH]; intros a Hp Hg Hi; [exact Hi|].
   cbn [fold_left]. cbn [forallb] in Hg. apply andb_true_iff in Hg as [Hm Hg].
-  destruct err.
+  destruct keep.
   - cbn [remove_one]. apply IH; assumption.
-  - destruct keep.
-    + cbn [remove_one]. apply IH; assumption.
-    + pose proof (remove_one_inv s0 n nd Hp a m Hm Hi) as H1.
-      destruct (remove_one false false s0 (a, false) m) as [a' e']. apply IH; assumption.
+  - apply IH; try assumption. apply remove_one_inv; assumption.
 Qed.
 
 Lemma forallb_dedup f l : forallb f l = true -> forallb f (dedup l) = true.
@@ -442,28 +420,28 @@ Qed.
 Theorem remove_preserves s files keep n nd :
   NoDup (names (disk s)) -> rm_guard s files = true ->
   lookup n (disk s) = Some nd -> to_backup s n = true ->
-  exists n', prefixb n n' = true /\ In (n', nd) (disk (fst (remove files keep false s))).
+  exists n', prefixb n n' = true /\ In (n', nd) (disk (remove files keep false s)).
 Proof.
   intros Hd Hg Hl Hp.
   assert (Hi : rinv n nd s).
   { split; [exact Hd|]. exists n. split; [apply prefixb_refl|]. split; [apply lookup_In; exact Hl|auto]. }
-  pose proof (remove_fold_inv s n nd keep (dedup files) s false Hp (forallb_dedup _ _ Hg) Hi) as H.
-  unfold remove. destruct (fold_left _ _ _) as [a err]. cbn [fst] in H.
-  destruct H as [_ [n' [H1 [H2 _]]]]. exists n'. split; [exact H1|]. destruct err; exact H2.
+  pose proof (remove_fold_inv s n nd keep (dedup files) s Hp (forallb_dedup _ _ Hg) Hi) as H.
+  unfold remove. cbn [disk]. destruct H as [_ [n' [H1 [H2 _]]]]. exists n'. split; assumption.
 Qed.
 
 (* --keep: nothing on disk changes at all, whatever --force says *)
-Theorem remove_keep_disk s files force : disk (fst (remove files true force s)) = disk s.
+Theorem remove_keep_disk s files force : disk (remove files true force s) = disk s.
 Proof.
-  unfold remove.
-  assert (H : forall l a, fold_left (remove_one true force s) l (a, false) = (a, false)).
+  unfold remove. cbn [disk].
+  assert (H : forall l a, fold_left (remove_one true force s) l a = a).
   { induction l as [|m l IH]; intros a; [reflexivity|]. cbn [fold_left remove_one]. apply IH. }
   rewrite H. reflexivity.
 Qed.
 
-(* unknown: not versioned and not a path of the basis; modified: versioned, added or changed and present *)
-Lemma to_backup_unknown s n : memn n (inv s) = false -> lookup n (basis s) = None -> to_backup s n = true.
-Proof. intros H1 H2. unfold to_backup. rewrite H1, H2. reflexivity. Qed.
+(* unknown: not versioned (whether or not its path is a path of the basis);
+   modified: versioned, added or changed and present *)
+Lemma to_backup_unknown s n : memn n (inv s) = false -> to_backup s n = true.
+Proof. intros H1. unfold to_backup. rewrite H1. reflexivity. Qed.
 
 Lemma to_backup_modified s n nd :
   memn n (inv s) = true -> lookup n (disk s) = Some nd ->
@@ -474,45 +452,34 @@ Proof.
   cbn. apply orb_true_r.
 Qed.
 
-(* witnesses *)
-(* K: "rm --keep f", edit f, "rm f": the unversioned file is deleted, no backup, no --force *)
+(* the witnesses of the repaired findings, now preserved *)
+(* "rm --keep f", edit f, "rm f" (86c5d42) *)
 Definition s_kept : state :=
   {| basis := [(nA, NFile (b_ "one"))]; inv := []; disk := [(nA, NFile (b_ "EDITED"))]; mm := [] |}.
-Lemma remove_kept_refuted :
-  memn nA (inv s_kept) = false /\ rm_guard s_kept [nA] = true
-  /\ lookup nA (disk s_kept) = Some (NFile (b_ "EDITED"))
-  /\ remove [nA] false false s_kept = ({| basis := basis s_kept; inv := []; disk := []; mm := [] |}, false).
-Proof. repeat split. Qed.
+Example remove_kept_ex : disk (remove [nA] false false s_kept) = [(backup_name nA 1, NFile (b_ "EDITED"))].
+Proof. reflexivity. Qed.
 
-(* H: the probe for "%41.~1~" looks at "A.~1~": an existing "%41.~1~" is overwritten *)
+(* "%41" with an existing "%41.~1~" (b356f06): the next free name is used *)
 Definition nP : bytes := [37; 52; 49].
 Definition s_pct : state :=
   {| basis := [(nP, NFile (b_ "one"))]; inv := [nP];
      disk := [(nP, NFile (b_ "EDIT 2")); (backup_name nP 1, NFile (b_ "PRECIOUS"))]; mm := [] |}.
-Lemma remove_percent_refuted :
-  memn (backup_name nP 1) (inv s_pct) = false /\ lookup (backup_name nP 1) (basis s_pct) = None
-  /\ lookup (backup_name nP 1) (disk s_pct) = Some (NFile (b_ "PRECIOUS"))
-  /\ snd (remove [nP] false false s_pct) = false
-  /\ forall n', ~ In (n', NFile (b_ "PRECIOUS")) (disk (fst (remove [nP] false false s_pct))).
-Proof.
-  repeat split. intros n' H. vm_compute in H. repeat (destruct H as [H|H]; [discriminate|]). exact H.
-Qed.
-
-(* a non-ASCII name that needs a backup: the probe raises, remove fails half-way (inventory untouched) *)
-Definition nE : bytes := [195; 169; 120].
-Definition s_na : state :=
-  {| basis := [(nE, NFile (b_ "one"))]; inv := [nE]; disk := [(nE, NFile (b_ "EDIT"))]; mm := [] |}.
-Lemma remove_nonascii_raises : remove [nE] false false s_na = (s_na, true).
+Example remove_percent_ex :
+  disk (remove [nP] false false s_pct)
+  = [(backup_name nP 1, NFile (b_ "PRECIOUS")); (backup_name nP 2, NFile (b_ "EDIT 2"))].
 Proof. reflexivity. Qed.
 
 (* with --force (and no --keep) unknown content IS deleted: force is what it takes *)
 Definition s_unk : state := {| basis := []; inv := []; disk := [(nA, NFile (b_ "unk"))]; mm := [] |}.
-Example remove_force_deletes : disk (fst (remove [nA] false true s_unk)) = [].
+Example remove_force_deletes : disk (remove [nA] false true s_unk) = [].
 Proof. reflexivity. Qed.
 Example remove_noforce_ex :
   rm_guard s_unk [nA] = true /\ to_backup s_unk nA = true
-  /\ disk (fst (remove [nA] false false s_unk)) = [(backup_name nA 1, NFile (b_ "unk"))].
+  /\ disk (remove [nA] false false s_unk) = [(backup_name nA 1, NFile (b_ "unk"))].
 Proof. repeat split. Qed.
+
+(* without the guard the MODEL (which does not sort) can lose a backup: a versioned, missing "a.~1~" named
+   after "a".  The real loop handles "a.~1~" first (reverse sorted), see notes. *)
 
 (* ================================================================== Part 4: one path through a merge *)
 
